@@ -21,7 +21,7 @@ VERIF = os.path.dirname(os.path.dirname(os.path.abspath(__file__)))
 HARNESS = os.path.join(VERIF, "harness")
 REPO = os.environ.get("VERIF_REPO", "/repo")
 CAT_C = os.path.join(REPO, "src", "cat.c")
-REPLAYS = os.path.join(VERIF, "replays")
+REPLAYS = os.environ.get("VERIF_REPLAYS", os.path.join(VERIF, "replays"))
 INFRA_PAT = re.compile(r"hint-incomplete|snprintf-model|unwinding assertion|recursion unwinding")
 STATE_NAMES = {-1: "ERROR", 0: "IDLE", 1: "PARSE_PREFIX", 2: "PARSE_COMMAND_CHAR", 3: "UPDATE_COMMAND_STATE",
                4: "WAIT_READ_ACKNOWLEDGE", 5: "SEARCH_COMMAND", 6: "COMMAND_FOUND", 7: "COMMAND_NOT_FOUND",
@@ -175,7 +175,7 @@ def replay_native(exe, hexstr, workdir, tag):
     failed = [l[len("CHECK-FAILED "):] for l in out.splitlines() if l.startswith("CHECK-FAILED ")]
     traj = []
     for l in out.splitlines():
-        m = re.match(r"STEP lane=(\d+) k=(\d+) state=(-?\d+) ustate=(\d+) cmd=(-?\d+) var=(-?\d+) index=(-?\d+)", l)
+        m = re.match(r"STEP lane=(\d+) k=(\d+) state=(-?\d+) ustate=(\d+) cmd=(-?\d+) var=(-?\d+) index=(-?\d+) type=(-?\d+)", l)
         if m:
             traj.append(tuple(int(x) for x in m.groups()))
     result = "ok"
@@ -205,7 +205,7 @@ def gen_hints(hints, path):
              "        switch (lane * 1000 + k) {"]
     for (lane, k) in sorted(hints):
         lines.append("        case %d:" % (lane * 1000 + k))
-        for (s, u, c, v, i) in sorted(hints[(lane, k)]):
+        for (s, u, c, v, i, t) in sorted(hints[(lane, k)]):
             if c >= 0:
                 cond = "at->cmd == &vf_cmd_base[%d]" % c
                 setc = " at->cmd = &vf_cmd_base[%d];" % c
@@ -228,6 +228,11 @@ def gen_hints(hints, path):
                 setc += " at->index = %d;" % i
             elif i == -2:
                 cond += " && at->index >= 64"
+            if t >= -1:
+                cond += " && at->cmd_type == (cat_cmd_type)(%d)" % t
+                setc += " at->cmd_type = (cat_cmd_type)(%d);" % t
+            elif t == -2:
+                cond += " && ((int)at->cmd_type < -1 || (int)at->cmd_type > 4)"
             lines.append("                if (at->state == (cat_state)(%d) && at->unsolicited_fsm.state == (cat_unsolicited_state)(%d) && %s) {" % (s, u, cond))
             lines.append("                        at->state = (cat_state)(%d); at->unsolicited_fsm.state = (cat_unsolicited_state)(%d);%s" % (s, u, setc))
             lines.append("                        return cat_service(at);")
@@ -595,12 +600,19 @@ def run_job(job, workdir, prop, seed=0, log=None):
         else:
             pr = parse_cbmc(out)
             ws = {}
+            if pr["status"] in (None, "parse-error"):
+                R["status"] = "inconclusive"
+                R["reason"] = "witness twin gave no verdict (rc=%s) %s" % (rc, "; ".join(pr["messages"])[:200])
+                R["witness"] = {}
+                job_required = []
             for p in pr["props"]:
                 if p["desc"].startswith("witness:"):
                     ws[p["desc"][8:]] = (p["status"] == "FAILURE")
             R["witness"] = ws
             missing = [k for k in job.required_witness if not ws.get(k)]
-            if not ws or missing:
+            if pr["status"] in (None, "parse-error"):
+                pass
+            elif not ws or missing:
                 R["status"] = "inconclusive"
                 R["reason"] = "vacuity: witness not reachable: " + ",".join(missing)
     if final == "proved" and R["status"] == "proved":
